@@ -157,11 +157,12 @@ func stripAssumption(a string) string {
 	return strip(parseSx(a), true).String()
 }
 
-// unaryDef recognises an assumption of the form (forall ((v S)) (! BODY :pattern ((f v)))): the definition (or a
-// property) of an opaque unary spec function, written for E-matching on f.
+// unaryDef recognises an assumption of the form (forall ((v1 S1) .. (vn Sn)) (! BODY :pattern ((f v1 .. vn)))): the
+// definition (or a property) of an opaque spec function, written for E-matching on f applied to its bound variables.
 type unaryDef struct {
-	fn, v string
-	body  *sx
+	fn   string
+	vs   []string
+	body *sx
 }
 
 func asUnaryDef(a string) *unaryDef {
@@ -173,10 +174,16 @@ func asUnaryDef(a string) *unaryDef {
 		return nil
 	}
 	bs := n.list[1]
-	if bs.list == nil || len(bs.list) != 1 || len(bs.list[0].list) != 2 {
+	if bs.list == nil || len(bs.list) == 0 {
 		return nil
 	}
-	v := bs.list[0].list[0].atom
+	var vs []string
+	for _, b := range bs.list {
+		if len(b.list) != 2 {
+			return nil
+		}
+		vs = append(vs, b.list[0].atom)
+	}
 	b := n.list[2]
 	if b.head() != "!" || len(b.list) != 4 || b.list[2].atom != ":pattern" {
 		return nil
@@ -186,28 +193,41 @@ func asUnaryDef(a string) *unaryDef {
 		return nil
 	}
 	pt := pats.list[0]
-	if pt.list == nil || len(pt.list) != 2 || pt.list[0].list != nil || pt.list[1].atom != v {
+	if pt.list == nil || len(pt.list) != len(vs)+1 || pt.list[0].list != nil {
 		return nil
 	}
-	return &unaryDef{fn: pt.list[0].atom, v: v, body: b.list[1]}
+	for i, v := range vs {
+		if pt.list[i+1].atom != v {
+			return nil
+		}
+	}
+	if strings.HasPrefix(pt.list[0].atom, "runLen_") || strings.HasPrefix(pt.list[0].atom, "classRun_") {
+		// the characterisation of a maximal class run is a string fact that slows cvc5 down by orders of magnitude
+		// wherever it is not needed; it stays available to the E-matching back ends only
+		return nil
+	}
+	return &unaryDef{fn: pt.list[0].atom, vs: vs, body: b.list[1]}
 }
 
-func substSx(n *sx, v string, by *sx) *sx {
+func substSx(n *sx, m map[string]*sx) *sx {
 	if n.list == nil {
-		if n.atom == v {
+		if by, ok := m[n.atom]; ok {
 			return by
 		}
 		return n
 	}
 	out := &sx{list: make([]*sx, len(n.list))}
 	for i, c := range n.list {
-		out.list[i] = substSx(c, v, by)
+		out.list[i] = substSx(c, m)
 	}
 	return out
 }
 
-// groundInstances: the instances of the unary definitions at the ground applications (f t) that occur in the given
+// groundInstances: the instances of the definitions at the ground applications (f t1 .. tn) that occur in the given
 // quantifier-free formulas (and, transitively, in the instances).  Instances of assumed universal formulas: sound.
+// Unary definitions are instantiated at every ground application in the formulas; definitions of functions of
+// several arguments only at applications in the goal (the last formula) and in instances already produced, which
+// keeps the weakening small.
 func groundInstances(defs []*unaryDef, formulas []string, limit int) []string {
 	byFn := map[string][]*unaryDef{}
 	for _, d := range defs {
@@ -218,8 +238,13 @@ func groundInstances(defs []*unaryDef, formulas []string, limit int) []string {
 	}
 	seen := map[string]bool{}
 	var out []string
-	var work []*sx
-	for _, f := range formulas {
+	type item struct {
+		n    *sx
+		full bool // n-ary definitions may be instantiated at the applications in this formula
+		gen  int  // 0: a given formula; k: an instance produced from generation k-1 (chains are cut at 3)
+	}
+	var work []item
+	for i, f := range formulas {
 		mentions := false
 		for fn := range byFn {
 			if strings.Contains(f, "("+fn+" ") {
@@ -228,40 +253,196 @@ func groundInstances(defs []*unaryDef, formulas []string, limit int) []string {
 			}
 		}
 		if mentions {
-			work = append(work, parseSx(f))
+			work = append(work, item{parseSx(f), i == len(formulas)-1, 0})
 		}
 	}
-	var walk func(n *sx, bound bool)
-	for len(work) > 0 && len(out) < limit {
-		n := work[0]
-		work = work[1:]
-		walk = func(n *sx, bound bool) {
-			if n == nil || n.list == nil {
-				return
-			}
-			h := n.head()
-			if h == "forall" || h == "exists" {
-				return
-			}
-			if ds, ok := byFn[h]; ok && len(n.list) == 2 {
-				arg := n.list[1].String()
-				if !strings.Contains(arg, "$") {
-					for _, d := range ds {
-						key := d.fn + "|" + d.v + "|" + arg
-						if !seen[key] && len(out) < limit {
-							seen[key] = true
-							inst := strip(substSx(d.body, d.v, n.list[1]), true)
-							out = append(out, inst.String())
-							work = append(work, inst)
-						}
+	full := false
+	gen := 0
+	var walk func(n *sx)
+	walk = func(n *sx) {
+		if n == nil || n.list == nil {
+			return
+		}
+		h := n.head()
+		if h == "forall" || h == "exists" {
+			return
+		}
+		if ds, ok := byFn[h]; ok {
+			for _, d := range ds {
+				if len(n.list) != len(d.vs)+1 || (len(d.vs) > 1 && !full) {
+					continue
+				}
+				args := n.String()
+				if strings.Contains(args, "$") {
+					continue
+				}
+				key := d.fn + "|" + strings.Join(d.vs, ",") + "|" + args
+				if !seen[key] && len(out) < limit {
+					seen[key] = true
+					m := map[string]*sx{}
+					for i, v := range d.vs {
+						m[v] = n.list[i+1]
+					}
+					inst := strip(substSx(d.body, m), true)
+					txt := inst.String()
+					if len(txt) > 20000 {
+						continue
+					}
+					out = append(out, txt)
+					if gen < 3 {
+						work = append(work, item{inst, true, gen + 1})
 					}
 				}
 			}
-			for _, c := range n.list {
-				walk(c, bound)
+		}
+		for _, c := range n.list {
+			walk(c)
+		}
+	}
+	for len(work) > 0 && len(out) < limit {
+		it := work[0]
+		work = work[1:]
+		full = it.full
+		gen = it.gen
+		walk(it.n)
+	}
+	return out
+}
+
+// ---- relevance slicing (a further sound weakening for the string back end) ----
+//
+// sliceAssumptions keeps, of a list of quantifier-free assumptions, the reach-chain skeleton and the conjuncts that
+// are connected to the goal through shared non-hub symbols.  Dropping assumptions is sound; a proof found on the
+// slice is a proof of the obligation.  cvc5 decides small string problems at once and is lost on the same facts
+// buried in a whole function's path condition.
+
+func symbolsOf(t string, universe map[string]bool, into map[string]bool) {
+	i := 0
+	for i < len(t) {
+		c := t[i]
+		switch {
+		case c == '"':
+			i++
+			for i < len(t) {
+				if t[i] == '"' {
+					if i+1 < len(t) && t[i+1] == '"' {
+						i += 2
+						continue
+					}
+					break
+				}
+				i++
+			}
+			i++
+		case c == '(' || c == ')' || c == ' ' || c == '\n' || c == '\t':
+			i++
+		default:
+			j := i
+			for j < len(t) && t[j] != '(' && t[j] != ')' && t[j] != ' ' && t[j] != '\n' && t[j] != '\t' {
+				j++
+			}
+			if w := t[i:j]; universe[w] {
+				into[w] = true
+			}
+			i = j
+		}
+	}
+}
+
+func isReachAtom(n *sx) bool {
+	return n != nil && n.list == nil && (strings.HasPrefix(n.atom, "R_") || n.atom == "R0" || strings.HasPrefix(n.atom, "R!"))
+}
+
+func flattenAnd(n *sx, out *[]*sx) {
+	if n.head() == "and" {
+		for _, c := range n.list[1:] {
+			flattenAnd(c, out)
+		}
+		return
+	}
+	*out = append(*out, n)
+}
+
+func sliceAssumptions(assums []string, goal string, universe map[string]bool) []string {
+	type piece struct {
+		text  string
+		syms  map[string]bool
+		chain bool
+	}
+	var pieces []*piece
+	add := func(text string, chain bool) {
+		p := &piece{text: text, chain: chain, syms: map[string]bool{}}
+		if !chain {
+			symbolsOf(text, universe, p.syms)
+			for k := range p.syms {
+				if strings.HasPrefix(k, "R_") || k == "R0" {
+					delete(p.syms, k)
+				}
 			}
 		}
-		walk(n, false)
+		pieces = append(pieces, p)
+	}
+	for _, a := range assums {
+		if strings.HasPrefix(a, "(=> R") {
+			n := parseSx(a)
+			if n != nil && len(n.list) == 3 && isReachAtom(n.list[1]) {
+				var cs []*sx
+				flattenAnd(n.list[2], &cs)
+				for _, c := range cs {
+					if isReachAtom(c) {
+						add("(=> "+n.list[1].atom+" "+c.atom+")", true)
+					} else {
+						add("(=> "+n.list[1].atom+" "+c.String()+")", false)
+					}
+				}
+				continue
+			}
+		}
+		add(a, false)
+	}
+	count := map[string]int{}
+	for _, p := range pieces {
+		for k := range p.syms {
+			count[k]++
+		}
+	}
+	hubLimit := len(pieces) / 3
+	if hubLimit < 25 {
+		hubLimit = 25
+	}
+	S := map[string]bool{}
+	symbolsOf(goal, universe, S)
+	used := make([]bool, len(pieces))
+	for changed := true; changed; {
+		changed = false
+		for i, p := range pieces {
+			if used[i] || p.chain {
+				continue
+			}
+			hit := false
+			for k := range p.syms {
+				if S[k] {
+					hit = true
+					break
+				}
+			}
+			if !hit {
+				continue
+			}
+			used[i] = true
+			changed = true
+			for k := range p.syms {
+				if count[k] <= hubLimit {
+					S[k] = true
+				}
+			}
+		}
+	}
+	var out []string
+	for i, p := range pieces {
+		if p.chain || used[i] {
+			out = append(out, p.text)
+		}
 	}
 	return out
 }
